@@ -83,6 +83,7 @@ type PathResult struct {
 	Witness     *Witness
 	FeasUnknown int
 	FeasSkipped bool
+	Trace       []string
 	Stats       smt.Stats
 }
 
@@ -121,21 +122,23 @@ type pathState struct {
 
 // Options for a run.
 type Options struct {
-	Tier         string
-	MaxDecisions int
-	MaxSteps     int64
-	TimeoutMs    int
-	AssertTimeMs int
-	MaxFaults    int
-	KnownOpen    map[string]bool // ids of open known findings (regions active)
-	Explore      int             // preemption bound; -1 = default scheduler
-	Params       map[string]int
-	Seed         int64
-	Witnesses    int // number of passing-path models to collect for translator validation
-	KnownSeen    *sync.Map
-	ReachSeen    *sync.Map
-	LazyFP       bool
-	Root         []int // explore only the subtree under this decision prefix
+	Tier          string
+	MaxDecisions  int
+	MaxSteps      int64
+	TimeoutMs     int
+	AssertTimeMs  int
+	MaxFaults     int
+	KnownOpen     map[string]bool // ids of open known findings (regions active)
+	Explore       int             // preemption bound; -1 = default scheduler
+	Params        map[string]int
+	Seed          int64
+	Witnesses     int // number of passing-path models to collect for translator validation
+	KnownSeen     *sync.Map
+	ReachSeen     *sync.Map
+	LazyFP        bool
+	Root          []int // explore only the subtree under this decision prefix
+	TraceSched    bool
+	ExploreForced bool // also branch over which goroutine runs at forced (blocking) switches
 }
 
 func (p *pathState) nextDecision() (int, bool) {
